@@ -61,4 +61,11 @@ var propMeta = map[string]*PropMeta{
 		Real:  realS, Stub: stubS, Assumptions: commonAssumptions,
 		Probes: []string{"probe.coalesced>1"},
 	},
+	"C14": {
+		Level: "exploration", QuickSecs: 40, ThoroughSecs: 600, Recycle: 200,
+		Rule: "one case = one seeded history around the moving retention boundary: retention/resolution ratio in {3,4,6,10,30,200}; points whose age relative to the database clock is drawn from {exactly retention, +-1 ns, +-1..3 resolutions, 2x retention, random inside, newer than the clock}; 75% of the plans use the virtual clock (the clock is the largest accepted timestamp, so the plan positions the boundary exactly), 25% the simulated real clock with clock jumps of {1 resolution, retention/2, retention, retention+1 resolution, 3x retention} and clean restarts; forced and timer flushes; finally ten data-carrying flushes at a constant clock. Oracle = reference aggregator with the property's acceptance rule (not older than retention when processed): (a) every returned row is a model row with the model's values, (b) every model period newer than now-retention+1 resolution is returned with the model's values, (c) windowed queries return nothing that ended more than one resolution before now-retention, (d) after ten data-carrying flushes neither the disk-only nor the full dump contains such a period. Non-trivial = a table with live rows was compared.",
+		Real:  realS, Stub: stubS,
+		Assumptions: append([]string{"one resolution of slack on both sides of the boundary, as the statement allows", "real-clock plans keep points 1 s away from the boundary because a point is processed up to ~60 ms (WAL poll) after its insert"}, commonAssumptions...),
+		Probes: []string{"probe.rejected-expired", "probe.has-expired-rows", "probe.checked-truncation", "fault.clockjump"},
+	},
 }
